@@ -776,9 +776,13 @@ impl Installer for SimInstaller {
             };
             // progress is reported in batches: batch size 1 = sequential reports; larger batches = several
             // receive_progress calls in flight at once (parallel package downloads sharing the observer)
-            let batch = spec.concurrent.max(1) as usize;
+            // concurrent == IMPATIENT: the last value is reported by an installer that does not wait for the report to
+            // complete (it polls the report once, e.g. racing it against its own work, drops it and finishes at once)
+            let impatient = spec.concurrent == IMPATIENT && !spec.progress.is_empty();
+            let batch = if impatient { 1 } else { spec.concurrent.max(1) as usize };
+            let awaited = if impatient { spec.progress.len() - 1 } else { spec.progress.len() };
             let mut i = 0;
-            while i < spec.progress.len() {
+            while i < awaited {
                 let vals: Vec<(usize, f32)> = spec.progress[i..(i + batch).min(spec.progress.len())].iter().enumerate().map(|(k, v)| (i + k, *v)).collect();
                 gate(&w, GateLabel::Progress(i)).await;
                 {
@@ -798,7 +802,17 @@ impl Installer for SimInstaller {
                 }
                 i += vals.len();
             }
-            gate(&w, GateLabel::Install).await;
+            if impatient {
+                let k = spec.progress.len() - 1;
+                let v = spec.progress[k];
+                lock(&w).log.push(Op::Progress { i: k, value: v, batch: 1 });
+                if let Some(o) = observer {
+                    // select polls the report first, then the ready future wins and the report is dropped unfinished
+                    let _ = future::select(o.receive_progress(None, v, None, None), future::ready(())).await;
+                }
+            } else {
+                gate(&w, GateLabel::Install).await;
+            }
             // contract: one result per offered app, in response order
             let mut results = spec.results.clone();
             results.resize(install_plan.offered, 0);
